@@ -18,13 +18,13 @@ import (
 
 func runOne(t *testing.T, c *Case, work, sched *choice.Source, out *wproto.Out, tail *racelog.Tail, id int) {
 	out.Begin(id)
-	out.OnStuck = func() {
+	out.SetOnStuck(func() {
 		c.Work, c.Sched = work.Tape(), sched.Tape()
 		out.Finding(id, "livelock|never-returned", "livelock", "the run exceeded its scheduler step budget and, left to run freely, still had not returned three seconds later: an endless loop", c)
 		out.End(id, []string{"livelock|never-returned"})
 		out.Count("evaluations", 1)
 		out.Finish("restart", id+1)
-	}
+	})
 	st := &Stats{}
 	fs := RunCase(t, c, work, sched, st)
 	var sigs []string
@@ -120,6 +120,14 @@ func TestWorker(t *testing.T) {
 		c.Seed, c.Index = job.Seed, want
 		out.Emit(map[string]any{"t": "dump", "replay": c})
 	case "explore":
+		// the first thing every worker process does: concurrent callers on a cold
+		// library (negative case ids; the workload is a function of seed, shard and
+		// the index this process starts at)
+		{
+			c := &Case{Property: "C13", Engine: "simsched", Kind: "coldstart"}
+			lbl := fmt.Sprint("-", job.Shard, "-", job.Start)
+			runOne(t, c, choice.New(job.Seed, "c13-cold-work"+lbl), choice.New(job.Seed, "c13-cold-sched"+lbl), out, tail, -(1 + job.Shard))
+		}
 		deadline := time.Now().Add(time.Duration(job.BudgetS * float64(time.Second)))
 		for i := job.Start; (job.MaxCases == 0 || i < job.MaxCases) && time.Now().Before(deadline); i++ {
 			if i%job.NShards != job.Shard {
